@@ -32,7 +32,7 @@ def regen_lean():
     props = sorted(f[:-5] for f in os.listdir(os.path.join(lean, "GapicModel", "Props")) if f.endswith(".lean"))
     drivers = sorted(f[:-5] for f in os.listdir(os.path.join(lean, "GapicModel", "Driver")) if f.endswith(".lean") and f != "Base.lean")
     root = ["import GapicModel.Regex.Syntax", "import GapicModel.Regex.Match", "import GapicModel.Lemmas.Regex",
-            "import GapicModel.Bridge.All", "import GapicModel.Driver"] + [f"import GapicModel.Props.{p}" for p in props]
+            "import GapicModel.Bridge.All", "import GapicModel.Bridge.Funcs", "import GapicModel.Driver"] + [f"import GapicModel.Props.{p}" for p in props]
     _write(os.path.join(lean, "GapicModel.lean"), "\n".join(root) + "\n")
     main = open(os.path.join(lean, "GapicModel", "Driver.lean")).read()
     head = "import GapicModel.Driver.Base\n" + "".join(f"import GapicModel.Driver.{d}\n" for d in drivers)
